@@ -1190,13 +1190,20 @@ def selftest(repo, verbose=True):
     import tempfile, shutil
     base = generate(repo)
     unnoticed = 0
+    skipped = 0
     for k, (rel, fn, old, new, occ) in enumerate(MUTATIONS):
         tmp = tempfile.mkdtemp(prefix='jbmut')
         try:
             shutil.copytree(os.path.join(repo, 'src'), os.path.join(tmp, 'src'))
             path = os.path.join(tmp, rel)
             src = strip_comments_keep_strings(re.sub(r'/\*.*?\*/', '', open(path).read(), flags=re.S))   # as the translator reads it
-            open(path, 'w').write(mutate(src, fn, old.replace('\\n', '\n'), new.replace('\\n', '\n'), occ))
+            try:
+                open(path, 'w').write(mutate(src, fn, old.replace('\\n', '\n'), new.replace('\\n', '\n'), occ))
+            except TranslateError as e:
+                skipped += 1
+                if verbose:
+                    print('mutation %2d  %s fn %s: %r: SKIPPED, the source text to mutate is not there (%s)' % (k, os.path.basename(rel), fn, old, e))
+                continue
             _SRC_CACHE.clear()
             try:
                 out = generate(tmp)
@@ -1213,7 +1220,7 @@ def selftest(repo, verbose=True):
         finally:
             shutil.rmtree(tmp, ignore_errors=True)
             _SRC_CACHE.clear()
-    print('selftest: %d mutations, %d unnoticed' % (len(MUTATIONS), unnoticed))
+    print('selftest: %d mutations, %d unnoticed, %d skipped' % (len(MUTATIONS), unnoticed, skipped))
     return unnoticed
 
 
